@@ -3,6 +3,11 @@
 import json, subprocess
 
 BUILT = {
+ "C12": dict(level="exploration",
+   technique="exhaustive pairs/triples of a curated value universe + rapid 'almost equal' nested triples; oracle = algebraic laws of a total preorder, operator cross-consistency, reference order",
+   text="All ordered pairs and triples of an ~85-value universe (integers around 2^53/2^63 next to floats, -0, NaN, infinities, non-UTF-8 strings, small and large arrays and maps, nested containers, functions, extensions, quotes) are checked for the laws of a total preorder on object.Cmp/Equals and for consistency of <,<=,>,>=,==,!=,min,max, map literal order and map lookup through grol source; rapid adds nested values where one leaf differs and cross-checks the sign of Cmp against an independent exact reference order. Violations of transitivity need specific triples (found: 2^53+1 / 2^53.0 / 2^53), which the universe is built around.",
+   note="Trusted: the reference order in harness/val (exact int/float comparison) for the random part; the laws themselves need no model.",
+   ref="DESIGN.md section 3, C12"),
  "C16": dict(level="exploration",
    technique="exhaustive enumeration of short byte strings over the significant alphabet + rapid glued-fragment strings + native fuzzing, oracle = span tiling / literal==bytes / independent string decoder",
    text="Every byte string up to length 4 (quick) or 5 (thorough) over a 39-byte alphabet is lexed in both modes with Pos() observed around each token and checked for tiling, literal==span, string/comment spans, end-marker behaviour, interning and keyword typing; byte loss after special cases (malformed exponent, second dot) is a short-input defect that this finds completely within the bound. rapid adds 200-byte strings of glued token fragments; thorough adds coverage-guided fuzzing.",
